@@ -12,6 +12,7 @@ import Driver.C12
 import Driver.C20
 import Driver.C16
 import Driver.C07
+import Driver.C05
 
 def main (args : List String) : IO UInt32 := do
   match args with
@@ -29,4 +30,5 @@ def main (args : List String) : IO UInt32 := do
   | ["c20"] => Driver.C20.run; return 0
   | ["c16"] => Driver.C16.run; return 0
   | ["c07"] => Driver.C07.run; return 0
+  | ["c05"] => Driver.C05.run; return 0
   | _ => IO.eprintln "usage: bufmodel <property-protocol>"; return 2
